@@ -48,7 +48,7 @@ RULE = ("one primitive (sum, any, all, min, max, nb_persons, value_from_person, 
         "simulation, in both orders; an entity with several roles that each have sub-roles; values int / dyadic "
         "float / bool with ties, float64 / int64 values that float32 cannot represent (0.1, 1/3, 2**24+1, yyyymmdd "
         "dates one day apart) for min / max / selections / projector chains / ranks, float arrays with +-inf on "
-        "members outside the requested role; a "
+        "members outside the requested role; a SCALE stream (a group of > 2**15 members, > 2**16 groups); a "
         "malformed stream (wrong array size, group index >= count, non-unique holder of a unique role, "
         "negative n, unknown attribute in a projector path). A case is non-trivial when it has at least "
         "one person and returns a value; cases are distinct as (membership, primitive, arguments).")
@@ -58,7 +58,12 @@ TRUSTED = ["numpy semantics (bincount, boolean-mask indexing and assignment, whe
            "ties of numpy.argsort are not compared literally: ordered_members_map and get_rank observations are "
            "canonicalised within runs of equal keys before the comparison with the model's stable sort; the "
            "oracle checks the raw answers"]
-ASSUMPTIONS = ["kinds f64 / i64: the case carries codes of an increasing table of float64 / int64 values containing 0 at "
+ASSUMPTIONS = ["SCALE stream (2 cases per quick run: one group of 33000-40000 members next to small ones; 66000-70000 "
+               "single-person groups built by the real SimulationBuilder): ORACLE ONLY -- the model receives the empty "
+               "case `Multi []`; the oracle recomputes positions (summary + samples), sum / nb_persons (with and without "
+               "role), two of min / max / all, value_nth_person at 0, 32767, 32768, last, last+1, resp. sum / nb_persons / "
+               "project / person->group chain, with per-group boolean masks",
+               "kinds f64 / i64: the case carries codes of an increasing table of float64 / int64 values containing 0 at "
                "code 0; the implementation receives the table's values in that dtype, its answers are mapped back to "
                "codes (an answer that is not exactly a table value is an error observation), model and oracle work on "
                "the codes -- an order embedding fixing 0, which min / max / selections / ranks commute with (no sums); "
@@ -330,6 +335,8 @@ def enc_bools(arr):
 # ---- implementation driver -------------------------------------------------------------------
 
 def run_impl(c):
+    if c["op"] == "scale":
+        return run_scale(c)
     sim, s = build_simulation(c["w"])
     if c["op"] == "multi":
         # every step on the SAME simulation, in order; a step that raises is recorded and
@@ -406,6 +413,8 @@ def steps_of(c):
 
 
 def coq_case(c):
+    if c["op"] == "scale":
+        return "(Multi [])"       # oracle-only stream: nothing for the model to evaluate
     if c["op"] == "multi":
         return "(Multi " + clist([coq_one(st) for st in steps_of(c)]) + ")"
     return f"(One {coq_one(c)})"
@@ -447,6 +456,8 @@ def obs_for_coq(c, o):
     """What the model must reproduce exactly.  numpy.argsort breaks ties arbitrarily, the
     model's argsort is the stable one: inside every run of equal keys the implementation's
     answer is put in increasing order (a wrong answer stays wrong, see TRUSTED)."""
+    if c["op"] == "scale":
+        return []
     if isinstance(o, Err):
         return o
     op = c["op"]
@@ -570,6 +581,8 @@ def chain_semantics(s, w, steps, x):
 
 
 def oracle(c, o):
+    if c["op"] == "scale":
+        return scale_oracle(c, o)
     if not well_formed(c):
         return None
     op = c["op"]
@@ -714,12 +727,16 @@ def oracle(c, o):
 
 
 def nontrivial(c, o):
+    if c["op"] == "scale":
+        return not isinstance(o, Err)
     if c["op"] == "multi" and not isinstance(o, Err) and all(isinstance(x, Err) for x in o):
         return False
     return not isinstance(o, Err) and len(c["w"]["groups"][0]["ids"]) > 0
 
 
 def classify(c, o):
+    if c["op"] == "scale":
+        return f"scale:{c['variant']}:{c['sys']}"
     if c["op"] == "multi":
         return f"multi:{c['w']['sys']}:{len(c['steps'])}:{c.get('shape', '?')}" + (":err" if isinstance(o, Err) else "")
     tag = c["op"]
@@ -1097,12 +1114,177 @@ def generate(rng, tier):
         w, shape = gen_world(rng, n=n)
         cases += world_cases(rng, w, shape)
     cases += malformed_cases(rng, n_bad)
+    cases += scale_cases(rng, tier)
     return cases
+
+
+
+# ---- the SCALE stream (oracle only) ---------------------------------------------------------------------
+# A few populations far beyond what the model can evaluate: one group with more members than an
+# int16 can count, more groups than a uint16 can index.  The case is a few parameters and a seed;
+# membership and values are re-derived from them (numpy RandomState) by the driver and by the
+# oracle, which recomputes every answer with boolean masks per group, independently of bincount /
+# argsort / position counters.
+
+SCALE_NTH = (0, 32767, 32768)
+
+
+def scale_world(c):
+    rs = numpy.random.RandomState(c["seed"])
+    s = SYSTEMS[c["sys"]]
+    k = c["k"]
+    if c["variant"] == "big":
+        sizes = list(c["small"])
+        sizes.insert(c["big_at"], c["n"])
+        ids = numpy.repeat(numpy.arange(len(sizes)), sizes)
+        rs.shuffle(ids)
+        n = len(ids)
+        roles = rs.choice(s.flat[k], size=n)
+        vals = rs.randint(-1000, 1001, size=n)
+        truth = numpy.ones(n, dtype=bool)
+        late = numpy.flatnonzero(ids == c["big_at"])[-200:]       # the last members of the big group
+        imax, imin, ifalse = (int(x) for x in rs.choice(late, size=3, replace=False))
+        vals[imax], vals[imin], truth[ifalse] = 5000, -5000, False
+        sample = sorted({int(x) for x in late[-20:]} | {int(x) for x in rs.randint(0, n, size=20)})
+        return dict(count=len(sizes), ids=ids, roles=roles, vals=vals, truth=truth, sample=sample,
+                    role=int(rs.choice(s.flat[k])))
+    g = c["n"]                                                     # "many": g persons, each alone
+    return dict(count=g, vals=rs.randint(-1000, 1001, size=g), gvals=rs.randint(-1000, 1001, size=g))
+
+
+def _held(s, k, role_row, roles):
+    rows = [role_row] + list(s.rows[k][role_row][0].subs)
+    return numpy.isin(roles, rows)
+
+
+def run_scale(c):
+    s = SYSTEMS[c["sys"]]
+    k = c["k"]
+    sw = scale_world(c)
+    out = []
+
+    def rec(name, fn):
+        out.append([name, guarded(fn)])
+
+    if c["variant"] == "big":
+        groups = []
+        for j in range(len(s.groups)):
+            if j == k:
+                groups.append({"count": sw["count"], "ids": sw["ids"].tolist(), "roles": sw["roles"].tolist()})
+            else:
+                groups.append({"count": 1, "ids": [0] * len(sw["ids"]), "roles": [s.flat[j][0]] * len(sw["ids"])})
+        sim, _ = build_simulation({"sys": c["sys"], "idt": c["idt"], "groups": groups})
+        pop = sim.populations[s.groups[k].key]
+        vals, truth = sw["vals"].astype(numpy.int64), sw["truth"]
+        role = s.role(k, sw["role"])
+
+        def positions():
+            p = numpy.asarray(pop.members_position)
+            return [int(p.min()), int(p.max()), int(p.astype(numpy.int64).sum()), [int(p[i]) for i in sw["sample"]]]
+        rec("positions", positions)
+        rec("sum", lambda: enc_ints(pop.sum(vals)))
+        rec("sum_role", lambda: enc_ints(pop.sum(vals, role=role)))
+        rec("nb", lambda: enc_ints(pop.nb_persons()))
+        rec("nb_role", lambda: enc_ints(pop.nb_persons(role=role)))
+        for op in c["reduce"]:
+            if op == "all":
+                rec("all", lambda: enc_bools(pop.all(truth)))
+            else:
+                rec(op, lambda op=op: enc_values(getattr(pop, op)(vals), 1))
+        for nn in list(SCALE_NTH) + [c["n"] - 1, c["n"]]:
+            rec(f"nth{nn}", lambda nn=nn: enc_ints(pop.value_nth_person(nn, vals, default=-7)))
+        return out
+    # many single-person groups, through the real SimulationBuilder (no group declared: everybody alone)
+    g = c["n"]
+    sim = SimulationBuilder().build_from_dict(s.tbs, {s.person.plural: {f"p{i}": {} for i in range(g)}})
+    pop = sim.populations[s.groups[k].key]
+    vals, gvals = sw["vals"].astype(numpy.int64), sw["gvals"].astype(numpy.int64)
+    first = s.role(k, s.flat[k][0])
+    other = s.role(k, s.flat[k][-1])
+    rec("count", lambda: [int(pop.count), int(sim.persons.count)])
+    rec("sum", lambda: enc_ints(pop.sum(vals)))
+    rec("sum_first", lambda: enc_ints(pop.sum(vals, role=first)))
+    rec("sum_other", lambda: enc_ints(pop.sum(vals, role=other)))
+    rec("nb", lambda: enc_ints(pop.nb_persons()))
+    rec("project", lambda: enc_ints(pop.project(gvals)))
+    rec("chain", lambda: enc_ints(getattr(sim.persons, s.groups[k].key).transform_and_bubble_up(gvals)))
+    return out
+
+
+def scale_expected(c):
+    s = SYSTEMS[c["sys"]]
+    k = c["k"]
+    sw = scale_world(c)
+    exp = []
+    if c["variant"] == "big":
+        ids, vals, truth = sw["ids"], sw["vals"].astype(object), sw["truth"]
+        held = _held(s, k, sw["role"], sw["roles"])
+        groups = range(sw["count"])
+        mem = [numpy.flatnonzero(ids == g) for g in groups]                  # members in storage order
+        pos = numpy.empty(len(ids), dtype=object)
+        for m in mem:
+            pos[m] = list(range(len(m)))
+        exp.append(["positions", [int(min(pos)), int(max(pos)), int(sum(pos)), [int(pos[i]) for i in sw["sample"]]]])
+        exp.append(["sum", [int(sum(vals[m])) for m in mem]])
+        exp.append(["sum_role", [int(sum(vals[m[held[m]]])) for m in mem]])
+        exp.append(["nb", [len(m) for m in mem]])
+        exp.append(["nb_role", [int(held[m].sum()) for m in mem]])
+        for op in c["reduce"]:
+            if op == "all":
+                exp.append(["all", [bool(all(truth[m])) for m in mem]])
+            elif op == "max":
+                exp.append(["max", [int(max(vals[m])) if len(m) else "-inf" for m in mem]])
+            else:
+                exp.append(["min", [int(min(vals[m])) if len(m) else "inf" for m in mem]])
+        for nn in list(SCALE_NTH) + [c["n"] - 1, c["n"]]:
+            exp.append([f"nth{nn}", [int(vals[m[nn]]) if nn < len(m) else -7 for m in mem]])
+        return exp
+    g = c["n"]
+    vals, gvals = sw["vals"].tolist(), sw["gvals"].tolist()
+    exp.append(["count", [g, g]])
+    exp.append(["sum", vals])
+    exp.append(["sum_first", vals])
+    exp.append(["sum_other", vals if len(s.flat[k]) == 1 else [0] * g])
+    exp.append(["nb", [1] * g])
+    exp.append(["project", gvals])
+    exp.append(["chain", gvals])
+    return exp
+
+
+def scale_oracle(c, o):
+    if isinstance(o, Err):
+        return f"scale: raised {o.kind} ({o.msg})"
+    what = f"{c['variant']} n={c['n']} seed={c['seed']} sys={c['sys']} k={c['k']}"
+    for (name, got), (name2, exp) in zip(o, scale_expected(c)):
+        assert name == name2
+        if isinstance(got, Err):
+            return f"scale: {name} raised {got.kind} ({got.msg}) [{what}]"
+        if got != exp:
+            if isinstance(got, list) and isinstance(exp, list) and len(got) == len(exp):
+                j = next(i for i, (a, b) in enumerate(zip(got, exp)) if a != b)
+                return f"scale: {name}[{j}] is {got[j]}, per-group definition gives {exp[j]} [{what}]"
+            return f"scale: {name} is {str(got)[:80]}, per-group definition gives {str(exp)[:80]} [{what}]"
+    return None
+
+
+def scale_cases(rng, tier):
+    out = []
+    for _ in range({"quick": 1, "escalated": 1, "thorough": 2}[tier]):
+        sys_name = rng.choice(["A", "C", "D"])
+        small = [rng.choice([0, 1, 2, 3, 5]) for _ in range(rng.randrange(1, 5))]
+        out.append({"op": "scale", "variant": "big", "sys": sys_name, "k": rng.randrange(2), "idt": rng.choice([64, 32]),
+                    "n": rng.randrange(33000, 40001), "small": small, "big_at": rng.randrange(len(small) + 1),
+                    "reduce": rng.sample(["min", "max", "all"], 2), "seed": rng.randrange(10 ** 6)})
+        out.append({"op": "scale", "variant": "many", "sys": rng.choice(["A", "B", "C", "D"]), "k": rng.randrange(2),
+                    "n": rng.randrange(66000, 70001), "seed": rng.randrange(10 ** 6)})
+    return out
 
 
 # ---- failing-input search helpers ------------------------------------------------------------------------
 
 def neighbours(c, rng):
+    if c["op"] == "scale":
+        return []
     out = []
     for _ in range(30):
         w, shape = gen_world(rng, sys_name=c["w"]["sys"], n=len(c["w"]["groups"][0]["ids"]))
@@ -1129,6 +1311,8 @@ def _drop_person(c, i):
 
 def shrink(c, still_fails):
     """Greedy: drop persons while the oracle still fails."""
+    if c["op"] == "scale":
+        return None
     if c["op"] == "multi":
         # drop steps instead (from the end, then from the front)
         cur = c
